@@ -23,6 +23,20 @@ let lru_op ismap tok =
   | ["C"] -> LClear
   | _ -> failwith ("bad lru op " ^ tok)
 
+(* LruCacheSet's own model (C17/LruSet.v); get / get_touch do not exist there *)
+let kset_op tok =
+  match split ',' tok with
+  | ["P"; k] | ["P"; k; _] -> Some (KPut (n k))
+  | ["T"; k] -> Some (KTouch (n k))
+  | ["TI"; k] -> Some (KTouchIf (n k))
+  | ["E"; k] -> Some (KErase (n k))
+  | ["EI"; k] -> Some (KEraseIf (n k))
+  | ["X"; k] -> Some (KExists (n k))
+  | ["S"] -> Some KSize
+  | ["O"] -> Some KPop
+  | ["C"] -> Some KClear
+  | _ -> None
+
 let splay_op tok =
   match split ',' tok with
   | ["I"; k] -> SInsert (n k)
@@ -80,10 +94,14 @@ let lru_show sk i r =
 
 let lstep1 s o = match lrun s [o] with (s1, [(r, _)]) -> (s1, r) | _ -> failwith "lrun"
 let rstep1 l o = match lref_run l [o] with (l1, [(r, _)]) -> (l1, r) | _ -> failwith "lref_run"
+let kstep1 s o = match krun s [o] with (s1, [(r, _)]) -> (s1, r) | _ -> failwith "krun"
 
 (* returns (valid, note) *)
 let run_lru ismap toks sk =
   let s = ref lru_init and l = ref [] and valid = ref true and differs = ref false in
+  (* for LruCacheSet the class's own model runs alongside: kset_is_map_with_unit says the two agree on every
+     history, so a difference here means the extracted code and the theorem have come apart *)
+  let ks = ref (if ismap then None else Some kset_init) in
   let rec do_tok tok =
       if tok.[0] = '@' then begin
         match split ',' (String.sub tok 1 (String.length tok - 1)) with
@@ -113,6 +131,14 @@ let run_lru ismap toks sk =
         let o = lru_op ismap tok in
         if not (lvalid !l [o]) then valid := false;
         let (s1, r) = lstep1 !s o and (l1, rr) = rstep1 !l o in
+        (match !ks, kset_op tok with
+         | Some k0, Some ko ->
+           let (k1, kr) = kstep1 k0 ko in
+           ks := Some k1;
+           if kr <> r || List.map (fun k -> (k, O)) k1.klst <> s1.lst || k1.kidx <> s1.idx || k1.kbad <> s1.bad
+           then differs := true
+         | Some _, None -> differs := true   (* an operation LruCacheSet does not have *)
+         | None, _ -> ());
         s := s1; l := l1; (Some r, Some rr) in
   List.iteri (fun i tok ->
     let (r, rr) = do_tok tok in
